@@ -8,7 +8,7 @@ The program given to the spec is the generator's abstract program (generated pro
 from .. import campaign as C
 from ..driver import analysis_check, standard_items
 
-CONFIG = dict(want=["parsed", "moments", "recs"], builders=[C.b_source, C.b_moments])
+CONFIG = dict(want=["parsed", "moments", "recs", "cont"], builders=[C.b_source, C.b_moments])
 
 
 def main(tier, seed):
